@@ -1,4 +1,4 @@
-import Driver.Io
+import Driver.Portable
 open FV Drv
 
 partial def loop (h : IO.FS.Stream) (out : IO.FS.Stream) (types : Array Ty) : IO Unit := do
@@ -58,6 +58,17 @@ partial def loop (h : IO.FS.Stream) (out : IO.FS.Stream) (types : Array Ty) : IO
       | none => "BAD-OP"
     out.putStrLn r
     loop h out types
+  | ["PC", be, n, sign, x] =>
+    out.putStrLn (runPC (mkPTy be n (if sign == "f" then "u" else sign)) (sign == "f") (parseHex x)); loop h out types
+  | ["PO", be, n, sign, op, x, y] =>
+    out.putStrLn (runPO (mkPTy be n sign) op (parseHex x) (parseHex y)); loop h out types
+  | ["PF", be, n, sign, f, a] =>
+    out.putStrLn (runPF (mkPTy be n sign) f (parseHex a)); loop h out types
+  | ["PK", be, n, sign, _] =>
+    out.putStrLn (runPK (mkPTy be n sign)); loop h out types
+  | "PX" :: _ => out.putStrLn "nat=1"; loop h out types
+  | ["PB", "ops", a, _b] => out.putStrLn s!"stored=0{a} nat=1"; loop h out types
+  | ["PB", "validate", v, _] => out.putStrLn (if v.toNat! ≤ 1 then "ok nat=1" else "err nat=1"); loop h out types
   | k :: tid :: max :: script :: rest =>
     let t := types[tid.toNat!]?.getD (.prim 0 1)
     let initsOf (ws : List String) : Option (List Init) :=
